@@ -156,6 +156,15 @@ func c17hist(c *Ctx) {
 			nops = 0 // the pristine registry
 		}
 		for op := 0; op <= nops; op++ {
+			if op > 0 && r.P(12) {
+				// the application lists the levels in ascending (or descending) order - it sorts what AllLevels() handed out.
+				// The set of levels is what it was.
+				ls := slog.AllLevels()
+				desc := r.Bool()
+				sort.Slice(ls, func(i, j int) bool { return (ls[i] < ls[j]) != desc })
+				hist = append(hist, fmt.Sprintf("sort(AllLevels(), descending=%v)", desc))
+				c.R.Add("histories_in_which_the_application_sorted_the_list_of_levels", 1)
+			}
 			if op > 0 {
 				// one RegisterLevel call
 				rl := regLevel{treatAs: -1}
@@ -428,12 +437,17 @@ func c17hist(c *Ctx) {
 					lg := slog.New("route").Root()
 					lg.SetWriter(e.w1).SetErrorWriter(e.w2).SetLevel(slog.AlwaysLevel).SetColorMode(false)
 					// the logger may have (or have had) a writer for some OTHER level: that is no business of this one
-					switch (op + int(l)) % 3 {
+					// ... and a writer it had for THIS level and has no more leaves the level where its registration put it
+					switch (op + int(l)) % 4 {
 					case 1:
 						lg.AddLevelWriter(slog.Level(4242), e.w3)
 					case 2:
 						lg.AddLevelWriter(slog.Level(4242), e.w3)
 						lg.RemoveLevelWriter(slog.Level(4242), e.w3)
+					case 3:
+						lg.AddLevelWriter(l, e.w3)
+						lg.RemoveLevelWriter(l, e.w3)
+						c.R.Add("route_probes_after_a_writer_for_the_level_was_added_and_removed", 1)
 					}
 					e.log.Reset()
 					lg.LogAttrs(bg, l, "route-probe")
